@@ -180,7 +180,7 @@ func C08(c *Ctx) {
 	r.Rule("R08.1", "recover first: every entry point through which sender-chosen bytes reach contract, guest or validator code (BoltVM.Run, BoltVM.HandleIBTP, WasmVM.Run, VerifyPool.CheckProof) installs a deferred recover() before any instruction that may panic, and the recovering closure sets the error result.")
 	r.Rule("R08.2", "no bare goroutine on input: every goroutine started under block execution (verifySign, verifyProofs) either installs its own recover first or calls nothing but recovering entry points of R08.1, synchronisation, logging and error formatting.")
 	r.Rule("R08.3", "dispatch only through recovering entries: the executor package reaches contract code only through BoltVM.Run / BoltVM.HandleIBTP / vm.VM.Run (frozen exception: evmInterchain).")
-	r.Rule("R08.4", "nil-able transaction parts: applyTransaction tests tx.GetFrom() for nil before any ledger call or defer, and answers with a FAILED receipt; transfer tests both addresses for nil and the amount for a negative sign before touching a balance.")
+	r.Rule("R08.4", "nil-able transaction parts: applyTransaction tests tx.GetFrom() for nil before any ledger call or defer, and answers with a FAILED receipt; transfer tests both addresses for nil and the amount for a negative sign before touching a balance; the optional callee (vm.Context.Callee, tx.GetTo()) is dereferenced - method call, load, or a helper that does so - only behind its nil test in every function of executor and vm packages that does not recover first.")
 	r.Rule("R08.5", "one receipt per transaction, in order: ApplyTransactions appends exactly one receipt per iteration of the loop over the block's transactions and returns that slice; applyTx / applyTransaction return a receipt that is an allocation (never nil) on every path; the receipts persisted are the ones returned.")
 	r.Rule("R08.6", "event codec agreement: for every event type that applyTx decodes with a panic on failure, every producer posting that type passes a value of the type the decoder unmarshals into; ledger.AddEvent is called with a raw event only with a type that has no panicking decoder.")
 	r.Rule("R08.7", "explicit panics triaged: every explicit panic in the unrecovered part of block execution (executor package, outside the VM entry points) is one of the frozen, classified sites; a new one is a violation until classified.")
@@ -391,6 +391,7 @@ func C08(c *Ctx) {
 		}
 		c.transferSignCheck("R08.4", tr)
 	}
+	c.c08NilCallee()
 
 	// R08.5
 	if ap := c.fn("R08.5", "internal/executor.(*SerialExecutor).ApplyTransactions"); ap != nil && len(ap.Params) >= 2 {
@@ -755,7 +756,6 @@ func (c *Ctx) c08Panics(recovering map[*ssa.Function]bool) {
 		"revertJournal: panic(error of Marshal)":                     "internal invariant: marshalling an account record",
 	}
 	_ = classified
-	// applyTx is reached through the function value SerialExecutor.applyTxFunc
 	roots := []string{"internal/executor.(*BlockExecutor).processExecuteEvent", "internal/executor.(*BlockExecutor).verifySign", "internal/executor.(*BlockExecutor).applyTx"}
 	// functions of the executor / ledger packages reachable from the roots without crossing a recovering entry
 	reach := map[*ssa.Function]bool{}
@@ -1036,4 +1036,160 @@ var classifiedByOrigin = map[string]string{
 var classifiedByMessage = map[string]string{
 	"revision id %v cannod be reverted":                   "usage invariant: a snapshot id is reverted at most once, innermost first - decided by R08.8",
 	"append block with height %d to blockfile failed: %w": "storage fault: blockfile append",
+}
+
+// c08NilCallee: R08.4 (second part) - the callee of a transaction is optional (a deployment has none): outside
+// recovering functions every dereference of vm.Context.Callee / tx.GetTo() lies behind its nil test.
+func (c *Ctx) c08NilCallee() {
+	r := c.R
+	isSource := func(v ssa.Value) bool {
+		v = core.Strip(v)
+		if _, f, _, ok := core.FieldOf(v); ok && f == "Callee" {
+			if u, isLoad := v.(*ssa.UnOp); isLoad && u.Op == token.MUL {
+				return true
+			}
+		}
+		if cc, ok := v.(*ssa.Call); ok && core.CalleeObj(cc) != nil && core.CalleeObj(cc).Name() == "GetTo" {
+			return true
+		}
+		return false
+	}
+	// paramDerefs[fn][i]: parameter i of fn is dereferenced (method call / load / field) on a path without its nil test
+	memo := map[*ssa.Function]map[int]bool{}
+	var unguardedUses func(fn *ssa.Function, same func(ssa.Value) bool, depth int) []ssa.Instruction
+	var paramSink func(g *ssa.Function, i int, depth int) bool
+	paramSink = func(g *ssa.Function, i int, depth int) bool {
+		if g == nil || len(g.Blocks) == 0 || !c.P.InModule(g) || i >= len(g.Params) || depth > 2 {
+			return false
+		}
+		if m, ok := memo[g]; ok {
+			if v, ok := m[i]; ok {
+				return v
+			}
+		} else {
+			memo[g] = map[int]bool{}
+		}
+		memo[g][i] = false
+		p := g.Params[i]
+		res := len(unguardedUses(g, func(v ssa.Value) bool { return core.Strip(v) == ssa.Value(p) }, depth+1)) > 0
+		memo[g][i] = res
+		return res
+	}
+	unguardedUses = func(fn *ssa.Function, same func(ssa.Value) bool, depth int) []ssa.Instruction {
+		nonNil := condEdges(fn, func(f core.Fact, ifi *ssa.If) (bool, int) {
+			if f.Kind == core.FNil && same(f.Subject) {
+				return true, 1 - holdsEdge(f)
+			}
+			return false, 0
+		})
+		rs := core.Reach([]core.Point{core.EntryOf(fn)}, nil, core.CutOf(nonNil))
+		var out []ssa.Instruction
+		for _, b := range fn.Blocks {
+			for _, in := range b.Instrs {
+				if !rs.Has(in) {
+					continue
+				}
+				sink := false
+				switch x := in.(type) {
+				case ssa.CallInstruction:
+					cm := x.Common()
+					if cm.IsInvoke() {
+						break
+					}
+					g := core.StaticCallee(x)
+					for i, a := range cm.Args {
+						if !same(a) {
+							continue
+						}
+						if g != nil && g.Signature.Recv() != nil && i == 0 {
+							if _, ptr := g.Signature.Recv().Type().Underlying().(*types.Pointer); ptr && !c.P.InModule(g) {
+								sink = true // pointer-receiver method of a dependency (types.Address): dereferences its receiver
+								continue
+							}
+						}
+						if paramSink(g, i, depth) {
+							sink = true
+						}
+					}
+				case *ssa.UnOp:
+					sink = x.Op == token.MUL && same(x.X)
+				case *ssa.FieldAddr:
+					sink = same(x.X)
+				}
+				if sink {
+					out = append(out, in)
+				}
+			}
+		}
+		return out
+	}
+	// functions of the executor and vm packages reachable from block execution without crossing a recovering function
+	reach := map[*ssa.Function]bool{}
+	var walk func(fn *ssa.Function)
+	walk = func(fn *ssa.Function) {
+		if fn == nil || reach[fn] || len(fn.Blocks) == 0 {
+			return
+		}
+		switch core.PkgOf(fn) {
+		case "internal/executor", "pkg/vm", "pkg/vm/wasm", "pkg/vm/boltvm":
+		default:
+			return
+		}
+		if ok, _, _ := c.recoversFirst(fn); ok {
+			return
+		}
+		for _, f := range core.WithClosures(fn) {
+			reach[f] = true
+			for _, call := range core.Calls(f) {
+				walk(core.StaticCallee(call))
+			}
+		}
+	}
+	for _, spec := range []string{"internal/executor.(*BlockExecutor).processExecuteEvent", "internal/executor.(*BlockExecutor).verifySign", "internal/executor.(*BlockExecutor).applyTx"} {
+		walk(c.fn("R08.4", spec))
+	}
+	var fns []*ssa.Function
+	for fn := range reach {
+		fns = append(fns, fn)
+	}
+	sort.Slice(fns, func(i, j int) bool { return core.FnName(fns[i]) < core.FnName(fns[j]) })
+	n := 0
+	for _, fn := range fns {
+		// distinct sources of the function
+		var srcs []ssa.Value
+		for _, b := range fn.Blocks {
+			for _, in := range b.Instrs {
+				if v, ok := in.(ssa.Value); ok && isSource(v) {
+					dup := false
+					for _, s := range srcs {
+						if sameValue(s, v) {
+							dup = true
+						}
+					}
+					if !dup {
+						srcs = append(srcs, v)
+					}
+				}
+			}
+		}
+		if len(srcs) == 0 {
+			continue
+		}
+		rec := false
+		for si, s := range srcs {
+			s := s
+			uses := unguardedUses(fn, func(v ssa.Value) bool { return types.Identical(v.Type(), s.Type()) && sameValue(v, s) }, 0)
+			n++
+			key := fmt.Sprintf("%s: optional callee #%d dereferenced only behind its nil test", shortFn(fn), si)
+			switch {
+			case len(uses) == 0:
+				r.OK("R08.4", key, c.P.Pos(s.Pos()), "every method call / dereference (also in helpers) lies behind != nil")
+			case rec:
+				r.OKTrivial("R08.4", key, c.P.Pos(s.Pos()), "dereference without nil test, but the function recovers first: the panic becomes its error result")
+			default:
+				r.Bad("R08.4", key, c.P.Pos(uses[0].Pos()), "the callee of a transaction may be absent (deployment, transaction without `to`); here it is dereferenced without a nil test in a function that does not recover: the nil-pointer panic stops the executor goroutine")
+			}
+		}
+	}
+	r.Floor("R08.4", "uses of the optional callee", n, 2)
 }
